@@ -190,6 +190,9 @@ void mp::internal::TextReader<Locale>::ReadHeader(NLHeader &header) {
     double tmp;
     if (!ReadOptionalDouble(tmp))
       break;
+    // Converting a NaN or a value outside the range of long is undefined.
+    if (!(tmp >= -9223372036854775808.0 && tmp < 9223372036854775808.0))
+      break;
     header.ampl_options[i] = (long)tmp;
     if (header.ampl_options[i] != tmp)
       break;
